@@ -1800,3 +1800,9 @@ package gkvlite
 //@   loop 1 invariant [C04,C09,C18] no-version-changed: t.root == old(t.root) && rootNodeLoc.refs == old(rootNodeLoc.refs) && rootNodeLoc.root == old(rootNodeLoc.root) && rootNodeLoc.next == old(rootNodeLoc.next) && rootNodeLoc.chainedCollection == old(rootNodeLoc.chainedCollection) && rootNodeLoc.chainedRootNodeLoc == old(rootNodeLoc.chainedRootNodeLoc) && tvs == old(tvs) && ias == old(ias) && (forall m {node.next[m]} :: !fresh(m) ==> node.next[m] == old(node.next[m])) && (forall x {nodeLoc.loc[x]} {nodeLoc.next[x]} :: !fresh(x) ==> nodeLoc.loc[x] == old(nodeLoc.loc[x]) && nodeLoc.next[x] == old(nodeLoc.next[x])) && freeNodes == old(freeNodes) && freeNodeLocs == old(freeNodeLocs) && freeRootNodeLocs == old(freeRootNodeLocs)
 //@   loop 1 invariant [C16,C06] presented-so-far: forall idx {vis.key[idx]} {vis.item[idx]} {vis.hasval[idx]} :: old(vis.n) <= idx && idx < vis.n ==> mem(vis.key[idx], old(tvs)[old(t.root.root)]) && vis.item[idx] == itemAt(vis.key[idx], old(tvs)[old(t.root.root)]) && vis.hasval[idx]
 //@   loop 1 invariant -1 <= rangeindex
+
+//@ func (*Collection).AllocStats$1
+//@   props C05
+//@   from: handed to withAllocLocks as its callback, so it is verified against the withAllocLocks.cb contract: it only copies the statistics into the caller's result variable
+//@   requires t != nil && res != nil && deref(t) != nil
+//@   modifies res.MkNodeLocs, res.FreeNodeLocs, res.AllocNodeLocs, res.MkNodes, res.FreeNodes, res.AllocNodes, res.CurFreeNodes, res.CurFreeNodeLocs, res.MkRootNodeLocs, res.FreeRootNodeLocs, res.AllocRootNodeLocs, res.CurFreeRootNodeLocs
